@@ -19,9 +19,10 @@ RULE = ('(i) G1 statement sequences with explicit terminators; a Hypothesis-chos
 ASSUMPTIONS = c03.ASSUMPTIONS
 
 STATEMENTS = ['var v = a', 'a = b', 'do x; while (c)', 'continue', 'continue L', 'break', 'break L', 'return',
-              'return a', 'throw a', 'debugger', 'a++', 'f()', 'x = function(){}', 'y = {}', 'z = [1]', 'w = /re/']
+              'return a', 'throw a', 'debugger', 'a++', 'f()', 'x = function(){}', 'y = {}', 'z = [1]', 'w = /re/',
+              'n = 1', 's = "s"', 't = true', 'u = null', 'v = this', 'return 1.5', 'o.in', '(p)']
 SEPARATORS = ['', ' ', '\n', '\r', '\r\n', u'\u2028', u'\u2029', '/*c*/', '/*a\nb*/', '//c\n', '\n/*c*/', '/*c*/\n',
-              ' \n ', '/**/\n/**/ ']
+              ' \n ', '/**/\n/**/ ', '/*a\rb*/', '/* c\r */ ', u'/*\u2029*/', '//c\r']
 FOLLOW = ['b', '1', '"s"', '(c)', '[0]', '{}', '+b', '-b', '++b', '--b', '/re/.x', '/re/g', '.x', 'var v2', 'if(c);',
           'function g(){}', '', ';', 'in c', 'instanceof c', ', c', '? c : d', '= c', 'else;', 'while(c);', '}',
           'new C', 'typeof c', '!c', 'this.x', 'null', 'case 1:', 'L: x', 'do;while(c)', '/= 2', '/ 2 / 1']
